@@ -1,4 +1,5 @@
 import ArcaModel.Lemmas.RoundTrip
+import ArcaModel.Lemmas.CborLeg
 import ArcaModel.Model.WFCheck
 /-
   C01  Serialize and Unserialize are mutual inverses.
@@ -12,10 +13,14 @@ import ArcaModel.Model.WFCheck
   and nothing more (see the docstring of `WF1`; `C01_inlined_needs_key_kind` and
   `C01_inlined_needs_key_kind_int` below show that the key-kind condition cannot be dropped).
 
-  What is NOT covered by a theorem (hence `_partial`): the CBOR leg (the encode/decode type
-  normalisation), the typed entry points (`UnserializeType`, `SerializeType`, ...), struct-mapped
-  objects. Those lie outside the model `run` and are covered by the correspondence run and the
-  chain oracle of the check only. Within the model nothing is missing any more.
+  The CBOR leg (the type normalisation `cborNorm` that one Marshal / Unmarshal-into-any round trip
+  performs) is covered by the `C01_cbor_*` theorems at the end of this file.
+
+  What is NOT covered by a theorem (hence the `_partial` suffix kept on the in-memory theorems): the
+  typed entry points (`UnserializeType`, `SerializeType`, ...) and struct-mapped objects. Those lie
+  outside the model `run` and are covered by the correspondence run, the chain oracle and the
+  struct-mapped oracle stream of the check only; that `cborNorm` is what fxamacker/cbor does is
+  compared with the real library on every run. Within the model nothing is missing any more.
 -/
 namespace Arca
 open Out
@@ -274,5 +279,238 @@ example : (run c01Ext 3 .U [] c01Excluding (.map .anyAny [(.str "k", .str "a")])
 #print axioms C01_roundtrip_partial
 #print axioms C01_serialize_idempotent_partial
 #print axioms C01_roundtrip_closed_partial
+
+end Arca
+
+/-! ## The CBOR leg
+
+  ATP does not hand the serialized value `w` to the peer's Unserialize directly: it goes through
+  `cbor.Marshal` and is decoded into `any`, which changes the Go types (`cborNorm`,
+  Model/Describe.lean, compared with fxamacker/cbor on every run of the check): a non-negative
+  integer of any kind arrives as `uint64`, a negative one as `int64`, every float as `float64`,
+  every map as `map[any]any`, every slice as `[]any`, a defined type as its underlying type.
+
+  The theorems below close that gap for the whole model: what the receiving side unserializes
+  from the CBOR-normalised wire form is IDENTICAL to the sender's value (`C01_cbor_roundtrip`), so
+  it validates and serializes to the identical wire form again (`C01_cbor_serialize_fixed`,
+  `C01_cbor_end_to_end`). This supersedes the remark in the header of this file that the CBOR
+  leg is covered by the correspondence run only.
+
+  The one hypothesis beyond `WF1`: the values are GO VALUES (`GoV`: every integer lies within the
+  range of its kind, a byte is below 256, a defined type wraps a scalar). The model type `V` is
+  wider than Go's value universe - it can write down an `int64` holding 2^63 - and the encoder
+  chooses the unsigned major type by the NUMBER; `C01_cbor_needs_go_values` shows the statement is
+  false for that non-value, so the hypothesis cannot be dropped, and that it excludes nothing that
+  exists in a Go process. It is asked of the raw input `v` and of the property defaults of the
+  schema (`DefGo`/`EnvDefGo`; defaults are what `encoding/json` decoded into `any`), and proved to
+  propagate to the unserialized value and to the wire form (`C01_wire_is_go_value`).
+  `C01_cbor_unserialize` is the underlying fact about Unserialize alone: no round trip, no
+  well-formedness of the schema, any Go value. No kind of schema had to be excluded: in the model
+  there is NO Go value on which the CBOR leg changes a successful Unserialize. -/
+namespace Arca
+open Out
+
+/-- Unserialize does not see the CBOR leg: whatever it accepts (a Go value `w`), it accepts in
+    CBOR-normalised form too, with the identical result. Every schema kind, every environment
+    (references, scopes), every externals; no well-formedness of the schema is needed. -/
+theorem C01_cbor_unserialize (x : Ext) (fuel : Nat) (env : Env) (t : Ty) (w r : V)
+    (hw : GoV w = true) (h : run x fuel .U env t w = .ok r) :
+    run x fuel .U env t (cborNorm w) = .ok r :=
+  unser_cborNorm x fuel env t w r hw h
+
+/-- Go values in, Go values out: from a raw Go value (and a schema whose defaults are Go values)
+    Unserialize yields a Go value, and Serialize yields a Go value from that. -/
+theorem C01_wire_is_go_value (x : Ext) (fuel : Nat) (env : Env) (t : Ty) (v r w : V)
+    (hdenv : EnvDefGo env) (hdt : DefGo t) (hv : GoV v = true)
+    (h : run x fuel .U env t v = .ok r) (hs : run x fuel .S env t r = .ok w) :
+    GoV r = true ∧ GoV w = true := by
+  have hr := unserialize_goV x fuel env t v r hdenv hdt hv h
+  exact ⟨hr, serialize_goV x fuel env t r w hr hs⟩
+
+/-- The round trip over the CBOR wire, given only that the wire form is a Go value. -/
+theorem C01_cbor_roundtrip_wire (x : Ext) (fuel : Nat) (env : Env) (t : Ty) (v r w : V)
+    (henv : EnvWF1 env) (hwf : WF1 env t) (hw : GoV w = true)
+    (h : run x fuel .U env t v = .ok r) (hs : run x fuel .S env t r = .ok w) :
+    run x fuel .U env t (cborNorm w) = .ok r := by
+  obtain ⟨_, w', hs', hu⟩ := C01_roundtrip_partial x fuel env t v r henv hwf h
+  rw [hs] at hs'
+  cases hs'
+  exact C01_cbor_unserialize x fuel env t w r hw hu
+
+/-- THE ROUND TRIP OVER THE CBOR WIRE. If Unserialize accepts the raw Go value `v` with result `r`
+    and `r` serializes to `w`, then unserializing what CBOR delivers of `w` yields exactly `r`. -/
+theorem C01_cbor_roundtrip (x : Ext) (fuel : Nat) (env : Env) (t : Ty) (v r w : V)
+    (henv : EnvWF1 env) (hwf : WF1 env t) (hdenv : EnvDefGo env) (hdt : DefGo t) (hv : GoV v = true)
+    (h : run x fuel .U env t v = .ok r) (hs : run x fuel .S env t r = .ok w) :
+    run x fuel .U env t (cborNorm w) = .ok r :=
+  C01_cbor_roundtrip_wire x fuel env t v r w henv hwf
+    (C01_wire_is_go_value x fuel env t v r w hdenv hdt hv h hs).2 h hs
+
+/-- Serialization is a fixed point across the wire: the receiving side's value validates and
+    serializes to the identical wire form. -/
+theorem C01_cbor_serialize_fixed (x : Ext) (fuel : Nat) (env : Env) (t : Ty) (v r w : V)
+    (henv : EnvWF1 env) (hwf : WF1 env t) (hdenv : EnvDefGo env) (hdt : DefGo t) (hv : GoV v = true)
+    (h : run x fuel .U env t v = .ok r) (hs : run x fuel .S env t r = .ok w) :
+    ∃ r', run x fuel .U env t (cborNorm w) = .ok r' ∧ run x fuel .V env t r' = done ∧
+      run x fuel .S env t r' = .ok w :=
+  ⟨r, C01_cbor_roundtrip x fuel env t v r w henv hwf hdenv hdt hv h hs,
+    (C01_roundtrip_partial x fuel env t v r henv hwf h).1, hs⟩
+
+/-- End to end, from acceptance of the raw value alone: the accepted value validates, serializes,
+    the wire form is a Go value, and both the wire form and what CBOR delivers of it unserialize
+    to the identical value. -/
+theorem C01_cbor_end_to_end (x : Ext) (fuel : Nat) (env : Env) (t : Ty) (v r : V)
+    (henv : EnvWF1 env) (hwf : WF1 env t) (hdenv : EnvDefGo env) (hdt : DefGo t) (hv : GoV v = true)
+    (h : run x fuel .U env t v = .ok r) :
+    run x fuel .V env t r = done ∧
+    ∃ w, run x fuel .S env t r = .ok w ∧ GoV w = true ∧ run x fuel .U env t w = .ok r ∧
+      run x fuel .U env t (cborNorm w) = .ok r := by
+  obtain ⟨hV, w, hs, hu⟩ := C01_roundtrip_partial x fuel env t v r henv hwf h
+  exact ⟨hV, w, hs, (C01_wire_is_go_value x fuel env t v r w hdenv hdt hv h hs).2, hu,
+    C01_cbor_roundtrip x fuel env t v r w henv hwf hdenv hdt hv h hs⟩
+
+/-- closed schemas -/
+theorem C01_cbor_roundtrip_closed (x : Ext) (fuel : Nat) (t : Ty) (v r w : V)
+    (hwf : WF1 [] t) (hdt : DefGo t) (hv : GoV v = true)
+    (h : run x fuel .U [] t v = .ok r) (hs : run x fuel .S [] t r = .ok w) :
+    run x fuel .U [] t (cborNorm w) = .ok r :=
+  C01_cbor_roundtrip x fuel [] t v r w (by intro p hp; simp at hp) hwf envDefGo_nil hdt hv h hs
+
+/-- The Go-value hypothesis cannot be dropped, and what it excludes is not a Go value.
+    Schema: `any`. "Value": an `int64` holding 2^63 = 9223372036854775808 (no such Go value: it is
+    outside the range of its kind, `GoV` says so). In the model Unserialize and Serialize pass it
+    through unchanged (an `int64` needs no range check in Go); the encoder would write it as an
+    unsigned integer, it would arrive as `uint64(2^63)`, and the any-schema rejects a `uint64`
+    above MaxInt64. Not a defect of the SDK: the sending side cannot hold this value. -/
+theorem C01_cbor_needs_go_values :
+    run c01Ext 2 .U [] .any (.int .int64 9223372036854775808) = .ok (.int .int64 9223372036854775808) ∧
+    run c01Ext 2 .S [] .any (.int .int64 9223372036854775808) = .ok (.int .int64 9223372036854775808) ∧
+    cborNorm (.int .int64 9223372036854775808) = .int .uint64 9223372036854775808 ∧
+    (run c01Ext 2 .U [] .any (cborNorm (.int .int64 9223372036854775808))).isErr = true ∧
+    GoV (.int .int64 9223372036854775808) = false :=
+  ⟨rfl, rfl, rfl, by decide, by decide⟩
+
+/-- the largest real int64 is fine -/
+example : run c01Ext 2 .U [] .any (cborNorm (.int .int64 9223372036854775807)) = .ok (.int .int64 9223372036854775807) :=
+  C01_cbor_unserialize c01Ext 2 [] .any _ _ (by decide) rfl
+
+/-! ### non-vacuity: the hypotheses hold of the example schemas, the wire forms really change -/
+
+example : DefGo c01Example := defGoB_sound 10 c01Example (by decide)
+example : DefGo c01InlExample := defGoB_sound 10 c01InlExample (by decide)
+
+/-- the theorem on the inlined example schema -/
+example (x : Ext) (fuel : Nat) (v r w : V) (hv : GoV v = true)
+    (h : run x fuel .U [] c01InlExample v = .ok r) (hs : run x fuel .S [] c01InlExample r = .ok w) :
+    run x fuel .U [] c01InlExample (cborNorm w) = .ok r :=
+  C01_cbor_roundtrip_closed x fuel c01InlExample v r w (wf1B_sound 10 [] c01InlExample (by decide))
+    (defGoB_sound 10 c01InlExample (by decide)) hv h hs
+
+/-- what Unserialize makes of `c01InlInput`; Serialize maps it to itself (every map is a
+    `map[string]any` of an object, every integer an int64) -/
+def c01InlValue : V :=
+  .map .strAny
+    [(.str "shapes", .list
+        [.map .strAny [(.str "kind", .str "circle"), (.str "r", .int .int64 2)],
+         .map .strAny [(.str "kind", .str "rect"), (.str "w", .int .int64 7)]]),
+     (.str "level", .map .strAny
+        [(.str "v", .int .int64 2),
+         (.str "next", .map .strAny
+            [(.str "shapes", .list []),
+             (.str "level", .map .strAny [(.str "v", .int .int64 1), (.str "a", .bool true)])])])]
+
+/-- what CBOR delivers of it: every map a `map[any]any`, every integer - including the int
+    discriminators `v` - a `uint64` -/
+def c01InlCbor : V :=
+  .map .anyAny
+    [(.str "shapes", .list
+        [.map .anyAny [(.str "kind", .str "circle"), (.str "r", .int .uint64 2)],
+         .map .anyAny [(.str "kind", .str "rect"), (.str "w", .int .uint64 7)]]),
+     (.str "level", .map .anyAny
+        [(.str "v", .int .uint64 2),
+         (.str "next", .map .anyAny
+            [(.str "shapes", .list []),
+             (.str "level", .map .anyAny [(.str "v", .int .uint64 1), (.str "a", .bool true)])])])]
+
+example : GoV c01InlInput = true := by decide
+example : run c01Ext 12 .U [] c01InlExample c01InlInput = .ok c01InlValue := by rfl
+example : run c01Ext 12 .S [] c01InlExample c01InlValue = .ok c01InlValue := by rfl
+example : cborNorm c01InlValue = c01InlCbor := by rfl
+example : cborNorm c01InlValue ≠ c01InlValue := by
+  intro h
+  rw [show cborNorm c01InlValue = c01InlCbor from rfl] at h
+  simp [c01InlCbor, c01InlValue, MapShape.anyAny, MapShape.strAny] at h
+
+/-- the instance of the theorem: the receiving side obtains the sender's value from `c01InlCbor` -/
+example : run c01Ext 12 .U [] c01InlExample c01InlCbor = .ok c01InlValue :=
+  C01_cbor_roundtrip_closed c01Ext 12 c01InlExample c01InlInput c01InlValue c01InlValue
+    (wf1B_sound 10 [] c01InlExample (by decide)) (defGoB_sound 10 c01InlExample (by decide)) (by decide) (by rfl) (by rfl)
+
+/-- A second instance, on `c01Example` (non-inlined one-of, a default, a map with an `any` value
+    schema), where raw input, unserialized value, wire form and CBOR-delivered form are four
+    different values: a negative int8 under a string schema and under `any`, a float32, a byte
+    slice and a defined int64 under `any`. -/
+def c01CborInput : V :=
+  .map .anyAny
+    [(.str "items", .list [.map .strAny [(.str "name", .int .int8 (-3)),
+        (.str "next", .map .anyAny [(.str "name", .str "b")])]]),
+     (.str "choice", .map .anyAny [(.str "kind", .str "a"), (.str "name", .str "x")]),
+     (.str "m", .map .strAny [(.str "k", .int .int8 (-5)),
+        (.str "l", .list [.float .f32 0x3FF8000000000000, .bytes [1, 255], .named (.int .int64 7)])])]
+
+/-- the unserialized value: `m` is a `map[string]any` -/
+def c01CborValue : V :=
+  .map .strAny
+    [(.str "items", .list [.map .strAny [(.str "name", .str "-3"),
+        (.str "next", .map .strAny [(.str "name", .str "b")])]]),
+     (.str "choice", .map .strAny [(.str "name", .str "x"), (.str "kind", .str "a")]),
+     (.str "m", .map ⟨.string, true⟩ [(.str "k", .int .int64 (-5)),
+        (.str "l", .list [.float .f64 0x3FF8000000000000, .list [.int .int64 1, .int .int64 255], .int .int64 7])]),
+     (.str "n", .int .int64 0)]
+
+/-- the wire form: `m` is serialized to a `map[any]any` -/
+def c01CborWire : V :=
+  .map .strAny
+    [(.str "items", .list [.map .strAny [(.str "name", .str "-3"),
+        (.str "next", .map .strAny [(.str "name", .str "b")])]]),
+     (.str "choice", .map .strAny [(.str "name", .str "x"), (.str "kind", .str "a")]),
+     (.str "m", .map .anyAny [(.str "k", .int .int64 (-5)),
+        (.str "l", .list [.float .f64 0x3FF8000000000000, .list [.int .int64 1, .int .int64 255], .int .int64 7])]),
+     (.str "n", .int .int64 0)]
+
+/-- what CBOR delivers: the negative integer stays an int64, the others become uint64 -/
+def c01CborDelivered : V :=
+  .map .anyAny
+    [(.str "items", .list [.map .anyAny [(.str "name", .str "-3"),
+        (.str "next", .map .anyAny [(.str "name", .str "b")])]]),
+     (.str "choice", .map .anyAny [(.str "name", .str "x"), (.str "kind", .str "a")]),
+     (.str "m", .map .anyAny [(.str "k", .int .int64 (-5)),
+        (.str "l", .list [.float .f64 0x3FF8000000000000, .list [.int .uint64 1, .int .uint64 255], .int .uint64 7])]),
+     (.str "n", .int .uint64 0)]
+
+example : GoV c01CborInput = true := by decide
+-- (the default of `n` is the float 0, whose exactness test computes 2^1074)
+set_option exponentiation.threshold 1100 in
+example : run c01Ext 12 .U [] c01Example c01CborInput = .ok c01CborValue := by rfl
+example : run c01Ext 12 .S [] c01Example c01CborValue = .ok c01CborWire := by rfl
+example : cborNorm c01CborWire = c01CborDelivered := by rfl
+example : cborNorm c01CborWire ≠ c01CborWire := by
+  intro h
+  rw [show cborNorm c01CborWire = c01CborDelivered from rfl] at h
+  simp [c01CborDelivered, c01CborWire, MapShape.anyAny, MapShape.strAny] at h
+
+set_option exponentiation.threshold 1100 in
+example : run c01Ext 12 .U [] c01Example c01CborDelivered = .ok c01CborValue :=
+  C01_cbor_roundtrip_closed c01Ext 12 c01Example c01CborInput c01CborValue c01CborWire
+    (wf1B_sound 10 [] c01Example (by decide)) (defGoB_sound 10 c01Example (by decide)) (by decide) (by rfl) (by rfl)
+
+#print axioms C01_cbor_unserialize
+#print axioms C01_wire_is_go_value
+#print axioms C01_cbor_roundtrip_wire
+#print axioms C01_cbor_roundtrip
+#print axioms C01_cbor_serialize_fixed
+#print axioms C01_cbor_end_to_end
+#print axioms C01_cbor_roundtrip_closed
+#print axioms C01_cbor_needs_go_values
 
 end Arca
